@@ -205,7 +205,6 @@ func (cc *CheckCtx) auditDynLike() {
 
 func constName(k string) string { return k }
 
-
 // underIf: the block is the true successor of a key comparison (a case body).
 func underIf(b *ssa.BasicBlock) bool {
 	for _, pr := range b.Preds {
